@@ -104,7 +104,11 @@ func writeViolation(eng *Eng, id string, o *Obligation, replay bool) violationPa
 		}
 		sort.Strings(ks)
 		for _, k := range ks {
-			fmt.Fprintf(&b, "  %s = %s\n", k, o.Result.Model[k])
+			if n, ok := o.task.modelNames[k]; ok {
+				fmt.Fprintf(&b, "  [%s] %s = %s\n", n, truncate(k, 120), o.Result.Model[k])
+			} else {
+				fmt.Fprintf(&b, "  %s = %s\n", truncate(k, 200), o.Result.Model[k])
+			}
 		}
 		if replay {
 			rr := replayModel(eng, id, o)
